@@ -28,6 +28,7 @@ type Interp struct {
 	visits  map[*ssa.BasicBlock]int
 	initing bool
 	pendingGo []func()
+	encoded   map[string][]*Term
 }
 
 type Frame struct {
@@ -965,6 +966,15 @@ func (in *Interp) call(fn *ssa.Function, binds []Value, args []Value) Value {
 		fr.locals[fvv] = binds[i]
 	}
 	r := in.run(fr)
+	if k, ok := codecPairs[name]; ok {
+		if k.encode {
+			if t, isT := args[1].(*Term); isT && !t.IsConst() {
+				in.encoded[k.family] = append(in.encoded[k.family], t)
+			}
+		} else {
+			r = in.simplifyDecoded(k.family, r)
+		}
+	}
 	in.depth--
 	in.curFn, in.curPos = savedFn, savedPos
 	return r
@@ -1754,4 +1764,48 @@ func (in *Interp) tryMerge(fr *Frame, b *ssa.BasicBlock, c *Term) (join *ssa.Bas
 	}
 	in.p.run.merged++
 	return j, ov, b
+}
+
+
+// ---------- proven simplification of decode(encode(x)) ----------
+// When a primitive decoder returns a symbolic value, the engine looks for a term that was passed to
+// the matching encoder earlier on the path and evaluates to the same value under the current model;
+// if the solver proves the two equal under the path condition, the decoded value is replaced by the
+// (much smaller) encoded term. This is sound (an equality proven under the path condition) and lets
+// downstream index arithmetic fold. The outcome is recorded as a decision so that replays agree.
+
+type codecPair struct {
+	family string
+	encode bool
+}
+
+var codecPairs = map[string]codecPair{
+	"github.com/DataDog/sketches-go/ddsketch/encoding.EncodeUvarint64":  {"uvarint", true},
+	"github.com/DataDog/sketches-go/ddsketch/encoding.DecodeUvarint64":  {"uvarint", false},
+	"github.com/DataDog/sketches-go/ddsketch/encoding.EncodeVarint64":   {"varint", true},
+	"github.com/DataDog/sketches-go/ddsketch/encoding.DecodeVarint64":   {"varint", false},
+	"github.com/DataDog/sketches-go/ddsketch/encoding.EncodeVarfloat64": {"varfloat", true},
+	"github.com/DataDog/sketches-go/ddsketch/encoding.DecodeVarfloat64": {"varfloat", false},
+	"github.com/DataDog/sketches-go/ddsketch/encoding.EncodeFloat64LE":  {"float64le", true},
+	"github.com/DataDog/sketches-go/ddsketch/encoding.DecodeFloat64LE":  {"float64le", false},
+}
+
+func (in *Interp) simplifyDecoded(family string, r Value) Value {
+	tv, ok := r.(TupleV)
+	if !ok || len(tv) != 2 {
+		return r
+	}
+	val, ok := tv[0].(*Term)
+	if !ok || val.IsConst() || in.p.spec > 0 || in.p.noSimplify {
+		return r
+	}
+	cands := in.encoded[family]
+	if len(cands) == 0 {
+		return r
+	}
+	k := in.p.ProvenEqual(val, cands)
+	if k < 0 {
+		return r
+	}
+	return TupleV{cands[k], tv[1]}
 }
